@@ -177,6 +177,40 @@ def gen_classes(rng, cfg):
             rej("trace-with-body", d, 400, [m["head_end"]])
     if lim["method"] >= 5:
         d, m = build(meth=b"TRACE"); out.append(("trace-not-enabled", d, ["T(405)"], [m["head_end"] - 1]))
+    # a header line folded over several physical lines: the limits apply to the whole line - each physical line is
+    # within the line limit, together they are well beyond it (the cut between a line end and the blank that continues
+    # the line is the interesting one); likewise the leading blanks of value and continuation together
+    L = lim["line"]
+    if L >= 24 and 3 * L <= lim["hlen"] - 8:
+        part = b"v" * (L - 10)
+        d0, m0 = build()
+        folded = b"A: " + part + b"\r\n " + part + b"\r\n " + part + b"\r\n"
+        d = d0[:m0["headers_end"]] + folded + b"\r\n"
+        b0 = m0["headers_end"]
+        cut1 = b0 + 3 + len(part) + 2      # between the first CRLF and the continuation blank
+        cut2 = cut1 + 1 + len(part) + 2
+        rej("folded-line-too-long", d, 400, [cut1, cut2, cut1 - 1, cut1 + 1, cut2 + 1])
+    if ws >= 2 and 24 <= min(lim["line"], lim["hlen"] - 5):
+        d0, m0 = build()
+        folded = b"A:" + b" " * ws + b"b\r\n" + b" " * ws + b"c\r\n" + b" " * 2 + b"d\r\n"
+        if len(folded) <= lim["line"]:
+            d = d0[:m0["headers_end"]] + folded + b"\r\n"
+            b0 = m0["headers_end"]
+            cut1 = b0 + 2 + ws + 1 + 2
+            cut2 = cut1 + ws + 1 + 2
+            rej("folded-line-too-many-blanks", d, 400, [cut1, cut2, cut1 + 1, cut2 + 1, cut2 + 2])
+    # the limits still hold for the second request of a connection (after the receiver has been cleared once)
+    if cfg.concat and 24 <= min(lim["line"], lim["hlen"] - 5) and cfg.maxchunk < 1000000:
+        first, _ = build(hdrs=[(b"Content-Length", b" ", b"0")])
+        second, m2 = build(meth=b"POST", hdrs=[(b"Transfer-Encoding", b" ", b"c")])
+        over = b"%x\r\n" % (cfg.maxchunk + 1)
+        d = first + second + over
+        out.append(("chunk-over-limit-on-the-second-request", d, [v(b"GET", b"/x", "11", {b"host": b"h", b"content-length": b"0"}), "I(400)"],
+                    [len(first), len(d), len(d) - 1]))
+        over2 = b"%x;e=1\r\n" % (cfg.maxchunk + 1)
+        d = first + second + over2
+        out.append(("chunk-over-limit-on-the-second-request", d, [v(b"GET", b"/x", "11", {b"host": b"h", b"content-length": b"0"}), "I(400)"],
+                    [len(first), len(d), len(d) - 1]))
     return out
 
 
